@@ -256,21 +256,13 @@ func (l *linkServiceBase) dispatchData(pkt *defn.Pkt) {
 		return
 	}
 
-	// Only if from a local face (and therefore from a producer), dispatch to
-	// threads matching every prefix. We need to do this because producers do
-	// not attach PIT tokens to their data packets.
-	if l.Scope() == defn.Local {
-		for i, match := range fw.HashNameToAllPrefixFwThreads(pkt.Name) {
-			if match {
-				core.LogTrace(l, "Prefix dispatched local-origin Data packet to thread ", i)
-				dispatch.GetFWThread(i).QueueData(pkt)
-			}
+	// No PIT token in our format (producers and peers that do not echo PIT tokens):
+	// dispatch to the threads matching every prefix of the name, because a pending
+	// CanBePrefix Interest lives in the thread its own (shorter) name hashes to.
+	for i, match := range fw.HashNameToAllPrefixFwThreads(pkt.Name) {
+		if match {
+			core.LogTrace(l, "Prefix dispatched Data packet to thread ", i)
+			dispatch.GetFWThread(i).QueueData(pkt)
 		}
-		return
 	}
-
-	// Only exact-match for now (no CanBePrefix)
-	thread := fw.HashNameToFwThread(pkt.Name)
-	core.LogTrace(l, "Dispatched Data to thread ", thread)
-	dispatch.GetFWThread(thread).QueueData(pkt)
 }
